@@ -2,6 +2,7 @@
 import ast
 from ..core import RuleResult, Finding, AnalysisError, dotted, src, norm_construct, guarded, guarded_list
 from ..shapes import Interp, TV, IntV, NONE, TOP, sym, lit
+from .. import paths
 
 GEO = 'pypose.function.geometry'
 B = ('batch', 'B')
@@ -207,6 +208,187 @@ def rule_fwd(repo, tier):
     return res
 
 
+# ---------------------------------------------------------------------------------------------------------------- SELF
+
+def _flat_assigns(body, binding):
+    """assignments of a body in source order; `if <name> is None` / `is not None` tests on names with a known None-ness are resolved"""
+    out = []
+    for st in body:
+        if isinstance(st, ast.Assign):
+            out.append(st)
+        elif isinstance(st, ast.If):
+            t = st.test
+            known = None
+            if isinstance(t, ast.Compare) and len(t.ops) == 1 and isinstance(t.left, ast.Name) and t.left.id in binding \
+                    and isinstance(t.comparators[0], ast.Constant) and t.comparators[0].value is None:
+                isnone = binding[t.left.id]
+                if isinstance(t.ops[0], (ast.Is, ast.Eq)):
+                    known = isnone
+                elif isinstance(t.ops[0], (ast.IsNot, ast.NotEq)):
+                    known = not isnone
+            if known is True:
+                out += _flat_assigns(st.body, binding)
+            elif known is False:
+                out += _flat_assigns(st.orelse, binding)
+            else:
+                out += _flat_assigns(st.body, binding) + _flat_assigns(st.orelse, binding)
+        elif isinstance(st, (ast.For, ast.While, ast.With, ast.Try)):
+            out += _flat_assigns(st.body, binding)
+    return out
+
+
+def _value_before(assigns, name, before_line):
+    """(value expression, position in a tuple target or None, the assignment) of the closest assignment to `name` above line `before_line`"""
+    best = None
+    for st in assigns:
+        if st.lineno >= before_line:
+            continue
+        for t in st.targets:
+            if isinstance(t, ast.Name) and t.id == name:
+                best = (st.value, None, st)
+            elif isinstance(t, ast.Tuple):
+                for k, x in enumerate(t.elts):
+                    if isinstance(x, ast.Name) and x.id == name:
+                        v = st.value.elts[k] if isinstance(st.value, ast.Tuple) and len(st.value.elts) == len(t.elts) else st.value
+                        best = (v, k if v is st.value else None, st)
+    return best
+
+
+def _diag_status(e, assigns, line, depth=0):
+    """'incl': e is a pairwise distance matrix of ONE point set with its zero diagonal intact; 'excl': the diagonal was masked out;
+    None: distances between two different sets / unknown"""
+    if depth > 12:
+        return None
+    if isinstance(e, ast.Name):
+        got = _value_before(assigns, e.id, line)
+        if got is None:
+            return None
+        return _diag_status(got[0], assigns, got[2].lineno, depth + 1)
+    if isinstance(e, ast.Subscript):
+        # D[m][:, m] / D[m, m] with the same mask on both axes keeps the diagonal on the diagonal
+        inner = e.value
+        if isinstance(inner, ast.Subscript):
+            m1 = src(inner.slice)
+            sl = e.slice
+            m2 = src(sl.elts[-1]) if isinstance(sl, ast.Tuple) and len(sl.elts) == 2 and isinstance(sl.elts[0], ast.Slice) else None
+            if m2 is not None and m1 == m2:
+                return _diag_status(inner.value, assigns, line, depth + 1)
+            return None
+        return None
+    if isinstance(e, ast.Call):
+        name = (dotted(e.func) or '').split('.')[-1] if dotted(e.func) else (e.func.attr if isinstance(e.func, ast.Attribute) else '')
+        if name in ('masked_fill', 'masked_fill_', 'fill_diagonal_', 'fill_diagonal'):
+            base = e.func.value if isinstance(e.func, ast.Attribute) else (e.args[0] if e.args else None)
+            st = _diag_status(base, assigns, line, depth + 1) if base is not None else None
+            return 'excl' if st in ('incl', 'excl') else None
+        if name == 'norm' and e.args:
+            d = e.args[0]
+            if isinstance(d, ast.Name):
+                got = _value_before(assigns, d.id, line)
+                d = got[0] if got else None
+            if isinstance(d, ast.BinOp) and isinstance(d.op, ast.Sub):
+                def pts(x, dimwant):
+                    if isinstance(x, ast.Call) and isinstance(x.func, ast.Attribute) and x.func.attr == 'unsqueeze' and x.args and src(x.args[0]) == dimwant:
+                        return src(x.func.value).replace(' ', '')
+                    return None
+                a, b = pts(d.left, '-2'), pts(d.right, '-3')
+                if a is None or b is None:
+                    a, b = pts(d.left, '-3'), pts(d.right, '-2')
+                if a is not None and a == b:
+                    return 'incl'
+            return None
+        if name in ('clone', 'contiguous', 'to', 'float', 'double', 'detach'):
+            return _diag_status(e.func.value, assigns, line, depth + 1)
+    return None
+
+
+@guarded
+def rule_self(repo, tier):
+    res = RuleResult('C18.SELF', 'knn_filter averages a point with its k nearest neighbours: the gathered index set is the k+1 smallest entries of a '
+                     'self-distance matrix whose zero diagonal is intact (the point itself is one of the k+1), also when it is obtained through knn()',
+                     floor=1)
+    f = repo.func(GEO, 'knn_filter')
+    kname = 'k'
+    assigns = _flat_assigns(f.node.body, {})
+    # the index handed to gather
+    gathers = [c for c in paths.calls_in(f.node) if (dotted(c.func) or '').split('.')[-1] == 'gather' and len(c.args) >= 3]
+    if not gathers:
+        raise AnalysisError('C18.SELF: knn_filter no longer gathers neighbour points')
+    for g in gathers:
+        idx = g.args[2] if (dotted(g.func) or '').startswith('torch.') else g.args[1]
+        # follow idx = idx.unsqueeze(..).expand(..) back to the producing call
+        cur, line = idx, g.lineno
+        prod = None
+        for _ in range(10):
+            if isinstance(cur, ast.Name):
+                got = _value_before(assigns, cur.id, line)
+                if got is None:
+                    break
+                v, pos, st = got
+                if isinstance(v, ast.Call) and pos is None and isinstance(st.targets[0], ast.Tuple):
+                    prod = (v, st)
+                    break
+                cur, line = v, st.lineno
+            elif isinstance(cur, ast.Call) and isinstance(cur.func, ast.Attribute) and cur.func.attr in ('unsqueeze', 'expand', 'expand_as', 'view', 'long', 'squeeze'):
+                cur = cur.func.value
+            elif isinstance(cur, ast.Attribute) and cur.attr == 'indices':
+                cur = cur.value
+            elif isinstance(cur, ast.Call):
+                prod = (cur, None)
+                break
+            else:
+                break
+        if prod is None:
+            raise AnalysisError('C18.SELF: the neighbour index of knn_filter could not be traced to its producer')
+        call, st = prod
+        cname = (dotted(call.func) or '').split('.')[-1] if dotted(call.func) else call.func.attr
+        status, K = None, None
+        if cname == 'topk' and isinstance(call.func, ast.Attribute):
+            K = call.args[0] if call.args else None
+            status = _diag_status(call.func.value, assigns, call.lineno)
+        else:
+            tg, how = repo.resolve_call(f, call, by_name=False)
+            if len(tg) == 1:
+                callee = tg[0]
+                a = callee.node.args
+                params = [x.arg for x in a.posonlyargs + a.args]
+                dflt = dict(zip(params[len(params) - len(a.defaults):], a.defaults))
+                bound = {}
+                for i, x in enumerate(call.args):
+                    if i < len(params):
+                        bound[params[i]] = x
+                for kw in call.keywords:
+                    if kw.arg:
+                        bound[kw.arg] = kw.value
+                for pn, dv in dflt.items():
+                    bound.setdefault(pn, dv)
+                K = bound.get('k')
+                noneness = {pn: isinstance(v, ast.Constant) and v.value is None for pn, v in bound.items()}
+                cas = _flat_assigns(callee.node.body, noneness)
+                # the callee's topk
+                tk = [c for c in paths.calls_in(callee.node) if isinstance(c.func, ast.Attribute) and c.func.attr == 'topk']
+                if len(tk) == 1:
+                    status = _diag_status(tk[0].func.value, cas, tk[0].lineno)
+                    if status is None:
+                        # distances between two argument sets: the same expression on both sides is a self-distance matrix
+                        d = _value_before(cas, 'diff', tk[0].lineno)
+                        pa, pb = bound.get(params[0]), bound.get(params[1]) if len(params) > 1 else None
+                        if pa is not None and pb is not None and src(pa) == src(pb) and not noneness.get(params[1]):
+                            status = 'incl'
+                    if tk[0].args and isinstance(tk[0].args[0], ast.Name) and tk[0].args[0].id != 'k':
+                        K = None
+        kk = src(K).replace(' ', '') if K is not None else None
+        ok = status == 'incl' and kk in (kname + '+1', '1+' + kname)
+        res.inst({'function': f.fq, 'neighbour index from': src(call)[:70], 'diagonal': status, 'count': kk, 'self plus k neighbours': ok})
+        if status is None or kk is None:
+            raise AnalysisError('C18.SELF: could not classify the neighbour set of knn_filter (%s, count %s)' % (status, kk))
+        if not ok:
+            what = 'the point itself is excluded from its neighbour set (diagonal masked out)' if status == 'excl' else 'the set has %s members' % kk
+            res.add(Finding('C18.SELF', f, 'knn_filter gathers `%s`: %s, but the filtered point is the mean of ITSELF and its k nearest neighbours, i.e. '
+                            'the k+1 smallest entries of a self-distance row including its zero diagonal' % (src(call)[:60], what), node=call))
+    return res
+
+
 @guarded
 def rule_memo18(repo, tier):
     from ..memo import rule_memo
@@ -216,4 +398,4 @@ def rule_memo18(repo, tier):
 
 
 def rules(repo, tier):
-    return [rule_idx(repo, tier), rule_sign(repo, tier), rule_fwd(repo, tier), rule_memo18(repo, tier)]
+    return [rule_idx(repo, tier), rule_sign(repo, tier), rule_fwd(repo, tier), rule_memo18(repo, tier), rule_self(repo, tier)]
